@@ -48,6 +48,7 @@ _STATS = re.compile(r"^(\d+) states generated, (\d+) distinct states found, (\d+
 _DEPTH = re.compile(r"The depth of the complete state graph search is (\d+)")
 _INV = re.compile(r"Error: Invariant (\S+) is violated")
 _ACTPROP = re.compile(r"Error: Action property (\S+) is violated")
+_CONSTINV = re.compile(r"Error: The invariant of (\S+) is equal to FALSE")
 _COV = re.compile(r"^<(\w+) line (\d+), col (\d+) to line (\d+), col (\d+) of module (\w+)>: (\d+):(\d+)")
 
 
@@ -111,9 +112,11 @@ def run(module, cfg=None, workers=None, timeout=600, simulate=None, depth=None,
         if m:
             res.depth = int(m.group(1))
             continue
-        m = _INV.search(line) or _ACTPROP.search(line)
+        m = _INV.search(line) or _ACTPROP.search(line) or _CONSTINV.search(line)
         if m:
             res.invariant_violated = m.group(1)
+            if _CONSTINV.search(line):
+                res.const_invariant = True      # a constant-level invariant that is FALSE: TLC exits 151 without a trace
             continue
         if "Postcondition" in line and ("violated" in line or "false" in line.lower()):
             res.postcondition_failed = True
@@ -131,6 +134,8 @@ def run(module, cfg=None, workers=None, timeout=600, simulate=None, depth=None,
                 continue
         if line.startswith("PKV "):
             res.raw_printed.append(line[4:])
+    if getattr(res, "const_invariant", False) and res.exit == 151:
+        res.exit = 12
     if res.exit not in (0, 12, 13) or "Parsing or semantic analysis failed" in p.stdout \
             or ("Error:" in p.stdout and res.invariant_violated is None and not res.postcondition_failed
                 and res.exit != 0):
